@@ -7,8 +7,9 @@ import random
 
 from .. import core, sx
 
-THEOREMS = ['C09.conj_form_preserves_truth', 'C09.propag_neg_preserves_truth', 'C09.cnf_preserves_truth', 'C09.cnf_terminates',
-            'C09.clauses_preserve_truth', 'C09.resolution_sound', 'C09.resolution_complete', 'C09.prover_decides']
+THEOREMS = ['C09.ofForm_eval', 'C09.ofForm_shape', 'C09.propagNeg_spec', 'C09.toCnf_spec', 'C09.toCnf_terminates',
+            'C09.toClauses_spec', 'C09.resolvable_sound', 'C09.refutation_sound', 'C09.all_trivial_valid',
+            'C09.saturation_complete', 'C09.prover_decides']
 
 
 def all_forms(size, nv):
